@@ -1,8 +1,61 @@
 import Genshi.Wire
-namespace Driver.C17
-open Genshi
+import Genshi.WireCore
+import Genshi.Model.PathStrategy
+import Driver.C05
+/-
+  Driver verbs for C17:
 
-/-- stub: the model driver for C17 is not built yet -/
-def handle : List Sexp → Option Sexp := fun _ => none
+    C17 trace <strategy> <ic> <skip> <text> <nsmap> <vars> <events>
+        -> ( ok <val>… ) one result per event of `Path(text).test(ic)` with every location path
+           forced onto <strategy> (auto = the choice of Path.__init__); with <skip> = T the caller
+           behaves like Path.select / the match filter: after a `True` on a START event the events
+           up to the matching END are fed update-only and reported as `SKIP`
+        -> unsupported | unmodelled | ( err <kind> )
+    C17 can <text>        -> ( ok ( <single> <simple> <generic> <chosen> )… ) per location path
+    C17 frags <text>      -> SimplePathStrategy fragments per location path
+-/
+namespace Driver.C17
+open Genshi Genshi.Path Genshi.Sexp Driver.C05
+
+def optValSexp : Option Val → Sexp
+  | none => .atom "SKIP"
+  | some v => valSexp v
+
+def stratName : Strategy → String
+  | .single => "Single" | .simple => "Simple" | .generic => "Generic"
+
+def handle : List Sexp → Option Sexp
+  | [.atom "trace", s, ic, skip, .str text, ns, vs, es] => do
+      let force ← strategyOf? s
+      let ic ← ic.toBool?; let skip ← skip.toBool?
+      let ns ← nsOfSexp? ns; let vs ← varsOfSexp? vs; let es ← streamOfSexp? es
+      if !textCovered text || !nsCovered ns || !eventsCovered es then pure (.atom "unmodelled") else
+      match parse text with
+      | .error .fuel | .error .unmodelled => pure (.atom "unmodelled")
+      | .error k => pure (.list [.atom "err", errAtom k])
+      | .ok ps =>
+        if !pathsCovered ps then pure (.atom "unmodelled")
+        else if (match force with
+                 | some s => !(ps.all fun p => s.supports p)
+                 | none => false) then pure (.atom "unsupported")
+        else
+          let (ms, sts) := pathTest ps ic force
+          pure (.list (.atom "ok" :: (traceCaller ms ns vs skip sts es).map optValSexp))
+  | [.atom "can", .str text] =>
+      match parse text with
+      | .ok ps => some (.list (.atom "ok" :: ps.map fun p =>
+          .list [ofBool (singleSupports p), ofBool (simpleSupports p), ofBool true,
+                 .atom (stratName ((chooseStrategy p).getD .generic))]))
+      | .error _ => some (.atom "unmodelled")
+  | [.atom "frags", .str text] =>
+      match parse text with
+      | .ok ps => some (.list (.atom "ok" :: ps.map fun p =>
+          match fragments p with
+          | none => .atom "N"
+          | some fs => .list (fs.map fun f =>
+              .list [.list (f.tests.map testSexp), .list (f.pi.map ofNat),
+                     (match f.attr with | some t => testSexp t | none => .atom "N"), ofBool f.selfBeginning])))
+      | .error _ => some (.atom "unmodelled")
+  | _ => none
 
 end Driver.C17
